@@ -4,9 +4,11 @@ import json, glob, os
 V = os.path.dirname(os.path.dirname(os.path.abspath(__file__)))
 checks = []
 claimed = set()
-for f in sorted(glob.glob(os.path.join(V, "props", "C*.json"))):
+CLAIMED = [l.strip() for l in open(os.path.join(V, "props", "CLAIMED")) if l.strip()]
+for pid in sorted(CLAIMED):
+    f = os.path.join(V, "props", pid + ".json")
     p = json.load(open(f))
-    pid = p["id"]
+    assert p["id"] == pid
     claimed.add(pid)
     checks.append({
         "property_id": pid,
